@@ -87,3 +87,50 @@ void h_split_contract(void)
   vec_crypto__ShamirShare r = crypto__Shamir__split(&in_secret, in_t, in_n);
   CANARY_POINT();
 }
+
+/* combine on t <= T_MAX shares with symbolic indices and values: fewer than t shares or a repeated index among the first t
+   => invalid_argument, nothing else escapes */
+#ifndef T_MAX
+#define T_MAX 3
+#endif
+void h_combine_rejects(void)
+{
+  vec_crypto__ShamirShare in_shares; uint8_t in_t; uint64_t in_n;
+  __CPROVER_assume(in_n <= T_MAX && in_t >= 1 && in_t <= T_MAX);
+  in_shares.p = malloc(sizeof(crypto__ShamirShare) * (T_MAX + 1)); in_shares.n = in_n; in_shares.cap = T_MAX + 1;
+  __CPROVER_assume(in_shares.p != 0);
+  /* the 32 byte positions are interpolated independently: positions 1..31 are fixed to zero, position 0 is arbitrary (this
+     keeps both behaviours of the code -- the skipped zero byte and the division -- and a tractable formula) */
+  for (int i = 0; i < T_MAX; ++i) for (int b = 1; b < 32; ++b) in_shares.p[i].value._[b] = 0;
+  _Bool dup = 0;
+  for (int i = 0; i < T_MAX; ++i) for (int j = 0; j < i; ++j)
+    if (i < in_t && i < (int)in_n && in_shares.p[i].index == in_shares.p[j].index) dup = 1;
+  __exc = 0;
+  arr_u8_32 r = crypto__Shamir__combine(&in_shares, in_t);
+  __CPROVER_assert(__exc == 0 || __exc == EXC_invalid_argument, "only invalid_argument escapes combine");
+  if (in_n < in_t) __CPROVER_assert(__exc == EXC_invalid_argument, "fewer than t shares: invalid_argument");
+  else if (dup) __CPROVER_assert(__exc == EXC_invalid_argument, "a repeated index among the t shares used: invalid_argument, never a 'reconstructed' secret");
+  else __CPROVER_assert(__exc == 0, "t shares with distinct indices are accepted");
+  CANARY_POINT();
+}
+/* reconstruction for threshold 2: shares of the degree-1 polynomial s + c*x at two distinct non-zero indices, in either order,
+   combine to s (per byte; the field operations are the ones proved against the carry-less specification above) */
+void h_combine_reconstructs_t2(void)
+{
+  arr_u8_32 in_secret, in_coeff; uint8_t in_x1, in_x2;
+  __CPROVER_assume(in_x1 != 0 && in_x2 != 0 && in_x1 != in_x2);
+  vec_crypto__ShamirShare sh; sh.p = malloc(sizeof(crypto__ShamirShare) * 3); sh.n = 2; sh.cap = 3;
+  __CPROVER_assume(sh.p != 0);
+  sh.p[0].index = in_x1; sh.p[1].index = in_x2;
+  for (int b = 1; b < 32; ++b) { in_secret._[b] = 0; in_coeff._[b] = 0; }     /* byte positions are independent: position 0 arbitrary */
+  for (int b = 0; b < 32; ++b) {
+    sh.p[0].value._[b] = (uint8_t)(in_secret._[b] ^ spec_gf_mul(in_coeff._[b], in_x1));
+    sh.p[1].value._[b] = (uint8_t)(in_secret._[b] ^ spec_gf_mul(in_coeff._[b], in_x2));
+  }
+  __exc = 0;
+  arr_u8_32 r = crypto__Shamir__combine(&sh, 2);
+  __CPROVER_assert(__exc == 0, "two shares with distinct non-zero indices are accepted");
+  uint64_t g = 0;
+  __CPROVER_assert(r._[g] == in_secret._[g], "any two shares of a threshold-2 sharing reconstruct the secret");
+  CANARY_POINT();
+}
